@@ -86,7 +86,7 @@ CFG = {
 }
 
 
-FMA_GUARD = False   # switched on together with the fix that converts every product explicitly (float64(d * d))
+FMA_GUARD = True    # switched on together with the fix that converts every product explicitly (float64(d * d))
 
 
 def fma_guard(check):
